@@ -6,6 +6,7 @@ From Coq Require Import List NArith ZArith Bool.
 From Coq Require Import Permutation.
 From SqfsV Require Import Base.Bytes Gen.Constants C01.GenC01 C01.Res C01.InodeModel C01.InodeProofs C01.IdProofs
   C01.XattrModel C01.XattrProofs C01.XattrWriterProofs.
+From SqfsV Require ImgXattr.CodecRel ImgXattr.Example.
 Import ListNotations.
 Local Open Scope N_scope.
 
@@ -99,13 +100,23 @@ Print Assumptions xattr_set_meaning.
    the writer accepts, the flush succeeds without touching memory outside the location table, every index
    returned by end() reads back - through id table, location table, key/value stream and out-of-line
    references - as exactly the set recorded for it, and "no pairs" is index 0xFFFFFFFF.  The metadata block
-   layer is a parameter: any block-start functions with "seeking to the start of block k finds block k". *)
+   layer is a parameter: any block-start functions with "seeking to the start of block k finds block k" for the
+   blocks that exist (k < nK key/value blocks, k < nT id blocks), key/value block starts below 2^48 (so that the
+   64 bit reference (start << 16 | offset) does not wrap), nK and nT large enough for the flushed streams.
+   HISTORY: until session 3 this theorem quantified the two block-start hypotheses over ALL k : N together with
+   "forall k, bsK k < 2^48" - jointly unsatisfiable (an injection of N into a finite set), so the statement was
+   vacuous; found by builder X and independently by the audit (proof of hyps -> False: /var/tmp/audit1/V1.v).  The
+   statement below is coq/ImgXattr/CodecRel.v xattr_rt_rel; its hypotheses are exhibited TOGETHER on a concrete run by
+   ex_xattr_rt_hyps at the end of this section, and C03's image_xattr_roundtrip instantiates it with the real block
+   starts of the flushed section. *)
 Theorem xattr_rt :
-  forall (bsK bsT : N -> N) (bidxK bidxT : N -> option N),
-  (forall k, bidxK (bsK k) = Some k) -> (forall k, bidxT (bsT k) = Some k) -> bsT 0 = 0 ->
-  (forall k, bsK k < 281474976710656) ->
+  forall (bsK bsT : N -> N) (bidxK bidxT : N -> option N) (nK nT : N),
+  (forall k, k < nK -> bidxK (bsK k) = Some k /\ bsK k < 281474976710656) ->
+  (forall k, k < nT -> bidxT (bsT k) = Some k) -> bsT 0 = 0 ->
   forall sets w idxs,
     Forall set_ok sets -> xw_sets xw_empty sets = Ok (w, idxs) -> nlen (x_blocks w) < NOIDX ->
+    (forall img, flush bsK bsT true w = Ok (Some img) -> nlen (xi_kv img) <= nK * META) ->
+    16 * nlen (x_blocks w) / 8192 < nT ->
     length idxs = length sets /\
     match flush bsK bsT true w with
     | Ok None => forall i kvs, nth_error sets i = Some kvs -> kvs = [] /\ nth_error idxs i = Some NOIDX
@@ -114,7 +125,7 @@ Theorem xattr_rt :
           exists l, rd_all bidxK bidxT img idx = Ok l /\ Permutation l (set_spec kvs)
     | _ => False
     end.
-Proof. exact xattr_rt_l. Qed.
+Proof. exact SqfsV.ImgXattr.CodecRel.xattr_rt_rel. Qed.
 Print Assumptions xattr_rt.
 
 (* every well-formed input is accepted (so the theorem above is not about an empty set of runs) *)
@@ -203,6 +214,18 @@ Proof.
   split; [|reflexivity]. intro k. unfold store_bidx, store_bs.
   rewrite N.mod_mul by discriminate. rewrite N.div_mul by discriminate. reflexivity.
 Qed.
+(* ALL hypotheses of xattr_rt together, on the run of ex_sets: block starts k * 8194, 2^30 blocks of each kind *)
+Example ex_xattr_rt_hyps :
+  (forall k, k < 1073741824 -> store_bidx (store_bs k) = Some k /\ store_bs k < 281474976710656) /\
+  store_bs 0 = 0 /\
+  match xw_sets xw_empty ex_sets with
+  | Ok (w, _) =>
+      Forall set_ok ex_sets /\ nlen (x_blocks w) < NOIDX /\
+      (forall img, flush store_bs store_bs true w = Ok (Some img) -> nlen (xi_kv img) <= 1073741824 * META) /\
+      16 * nlen (x_blocks w) / 8192 < 1073741824
+  | _ => False
+  end.
+Proof. exact SqfsV.ImgXattr.Example.ex_rel_hyps. Qed.
 
 (* ---- theorems that depend on what the working tree's id table really accepts (probe, GenC01.v) ---- *)
 
